@@ -194,3 +194,17 @@ bounded_only('C17', 'bounded.c17',
     ['IndexedGrammar.is_empty', '_duplication_processing', '_production_process', 'addrec_bis', 'addrec_ter', 'Rules', 'RuleOrdering', 'remove_useless_rules', 'FST.intersection'],
     'case = one rule list (with a permutation seed) or a rule list with an automaton; non-trivial = non-empty language using a production and a consumption rule / non-empty intersection',
     {'quick': '1500 grammars x (permutations x optim) + 500 intersections', 'thorough': 'x10'}, hashseeds={'quick': [0, 1], 'thorough': [0, 1, 2, 3]})
+
+bounded_only('C20', 'bounded.c20',
+    'Bounded stand-in only: from_networkx(to_networkx()) must reproduce start/final marking and transitions of random automata, PDAs and FSTs whose values are JSON-representable (strings with blanks, quotes, slashes, non-ASCII; integers) and free of the separators; CFG.from_text(to_text()) must keep the language (words <=4) for grammars over whitespace-free tokens incl. lower-case variables and capitalised terminals; every box of RecursiveAutomaton.from_ebnf / from_regex must accept exactly the alternatives of its head (reference regex reading, words <=3).',
+    'Trusted: reference extractors and specs/regex.py; labels go through json, str.split and networkx, i.e. external code plus text - no deductive route in this pass. Isolated states that are neither start nor final are not required to survive the graph round trip.',
+    ['FiniteAutomaton.to_networkx/from_networkx', 'PDA.to_networkx/from_networkx', 'FST.to_networkx/from_networkx', 'CFG.to_text/from_text/_read_line', 'Variable.to_text', 'Terminal.to_text', 'RecursiveAutomaton.from_ebnf/from_regex', 'Box'],
+    'case = one machine, grammar or EBNF text; non-trivial = at least two transitions / productions / heads',
+    {'quick': '1200 automata + 1200 PDAs + 1200 FSTs + 1200 grammars + 600 EBNF texts', 'thorough': 'x10'})
+
+bounded_only('C19', 'bounded.c19',
+    'Bounded stand-in (the deductive part - frame clauses "operand view unchanged" and freshness of results - is reported under the properties whose functions are proved): every ordered pair of public queries/conversions per class (automata of the three classes, Regex, CFG, PDA, FST, indexed grammar; 13-28 operations each, incl. the same object as both operands, conversions of conversions, mutation of every returned machine through its public mutators) plus random histories of length 2-4 is run on one long-lived object; each answer is compared semantically with the answer of the same call on a freshly built equal object, and the operands are read back at the end.',
+    'Trusted: the semantic summaries of answers (bounded languages / relations from specs/*). Histories longer than 4 calls and operations outside the listed sets are not explored.',
+    ['all public query / conversion methods listed in bounded/c19.py *_OPS'],
+    'case = (class, object, second operand, history); non-trivial = history with at least two different calls; evaluations = calls compared',
+    {'quick': 'all ordered pairs of calls per class (2455 histories) + 2080 random histories', 'thorough': '4 objects per pair + 20800 random histories'})
